@@ -1,8 +1,8 @@
 // Correspondence harness for the frequent-items family (C12): real frequent_items_sketch, public API only.
 //
 //   new <id> <u64|i64|f64> <int|str> <lg_max> <lg_start>      -> S-line | throw
-//   upd <id> <item> <weight> [hint]                            -> S-line | throw     (hint is for the model only)
-//   merge <dst> <src> [hint]                                   -> S-line of dst
+//   upd|updmv <id> <item> <weight> [hint]                      -> S-line | throw     (hints are for the model only; mv = rvalue overload)
+//   merge|mergemv <dst> <src> [hint nact sumlb]                -> S-line of dst
 //   ser <id> <newid> <bytes|stream>                            -> S-line of the deserialised copy
 //   q <id> <item>*                                             -> Q total offset nact | est:lb:ub ...
 //   fi <id> <nfn|nfp> <t0|thalf|toff|t2off|tdef|literal>       -> F thr n | estimates in returned order | rows sorted (est desc, item asc)
@@ -47,8 +47,8 @@ template<> struct IT<std::string> {
 struct Base {
   virtual ~Base() {}
   virtual std::string S() = 0;
-  virtual std::string upd(const std::string& item, const std::string& w) = 0;
-  virtual std::string merge(Base& o) = 0;
+  virtual std::string upd(const std::string& item, const std::string& w, bool rvalue) = 0;
+  virtual std::string merge(Base& o, bool rvalue) = 0;
   virtual std::unique_ptr<Base> ser(const std::string& mode) = 0;
   virtual std::string q(const std::vector<std::string>& w) = 0;
   virtual std::string fi(const std::string& et, const std::string& spec) = 0;
@@ -65,16 +65,18 @@ struct Box : Base {
     return "S " + WT<W>::fmt(sk.get_total_weight()) + " " + WT<W>::fmt(sk.get_maximum_error()) + " " +
            std::to_string(sk.get_num_active_items()) + " " + (sk.is_empty() ? "1" : "0") + " " + vh::hex_f64(sk.get_epsilon());
   }
-  std::string upd(const std::string& item, const std::string& w) override {
+  std::string upd(const std::string& item, const std::string& w, bool rvalue) override {
     T x; W wt;
     if (!IT<T>::parse(item, x) || !WT<W>::parse(w, wt)) return "bad-op";
-    sk.update(x, wt);
+    if (rvalue) { T y(x); sk.update(std::move(y), wt); }   // update(T&&)
+    else sk.update(x, wt);                                 // update(const T&)
     return S();
   }
-  std::string merge(Base& o) override {
+  std::string merge(Base& o, bool rvalue) override {
     auto* p = dynamic_cast<Box*>(&o);
     if (!p) return "bad-op";
-    sk.merge(p->sk);
+    if (rvalue) { SK tmp(p->sk); sk.merge(std::move(tmp)); }   // merge(frequent_items_sketch&&) on a copy
+    else sk.merge(p->sk);                                      // merge(const frequent_items_sketch&)
     return S();
   }
   std::unique_ptr<Base> ser(const std::string& mode) override {
@@ -148,11 +150,11 @@ static std::string step(const std::vector<std::string>& w) {
     objs[atoi(w[1].c_str())] = std::move(p);
     return s;
   }
-  if (op == "upd" && w.size() >= 4) return objs.at(atoi(w[1].c_str()))->upd(w[2], w[3]);
-  if (op == "merge" && w.size() >= 3) {
+  if ((op == "upd" || op == "updmv") && w.size() >= 4) return objs.at(atoi(w[1].c_str()))->upd(w[2], w[3], op == "updmv");
+  if ((op == "merge" || op == "mergemv") && w.size() >= 3) {
     Base& d = *objs.at(atoi(w[1].c_str()));
     Base& s = *objs.at(atoi(w[2].c_str()));
-    return d.merge(s);
+    return d.merge(s, op == "mergemv");
   }
   if (op == "ser" && w.size() == 4) {
     auto p = objs.at(atoi(w[1].c_str()))->ser(w[3]);
